@@ -654,3 +654,94 @@ def r_parallelsign(idx, rep, modules, rule="R-PARALLELSIGN", floor=1):
             rep.check(bad is None, rule, key, "%s:%d" % (m.relpath, bad.lineno if bad else f.node.lineno),
                       "`%s` decides parallelism from the SIGNED inner product of two directions: anti-parallel normals (n2 = -n1, the same plane family) give -1 and "
                       "take the 'not parallel' branch, where the intersection line is degenerate" % (u(bad) if bad else ""), "orientation independent")
+
+
+
+def r_insidezero(idx, rep, rule="R-INSIDEZERO"):
+    """point_to_ellipsoid and points_in_ellipsoid must agree: a point of the solid (normalised norm |R^T (p - c) / radii| < 1) has distance 0 and is its own
+    closest point under the default arguments.  Decided by walking the function with three-valued conditions: the inside test is TRUE, flags have their
+    default values, every other test is open; every `return` that can be reached must be `0.0, <the query point>`."""
+    from ..core.astutil import inline_temps_in
+    rep.rule(rule, "point_to_ellipsoid: with the default flags every return reachable for a point whose normalised norm is below 1 is (0.0, point) — the distance "
+                   "agrees with the containment predicate on interior points, the centre included", floor=1)
+    f = idx.func("distance3d.distance._ellipsoid::point_to_ellipsoid")
+    ps = f.params()
+    point = ps[0]
+    defaults = {}
+    a = f.node.args
+    for p_, d_ in zip(a.args[len(a.args) - len(a.defaults):], a.defaults):
+        if isinstance(d_, ast.Constant) and isinstance(d_.value, bool):
+            defaults[p_.arg] = d_.value
+    # the normalised norm: N = norm(<...> / radii)
+    nn = None
+    for st in ast.walk(f.node):
+        if isinstance(st, ast.Assign) and len(st.targets) == 1 and isinstance(st.targets[0], ast.Name) and isinstance(st.value, ast.Call) \
+                and (call_name(st.value) or "").endswith("norm") and st.value.args and isinstance(st.value.args[0], ast.BinOp) and isinstance(st.value.args[0].op, ast.Div):
+            nn = st.targets[0].id
+    if nn is None:
+        rep.unknown(rule, f.key + "|interior points have distance 0", f.where, "the normalised norm |local point / radii| is not computed under a name")
+        return
+    env = dict(defaults)
+
+    def tv(t):
+        """True / False / None"""
+        if isinstance(t, ast.Constant) and isinstance(t.value, bool):
+            return t.value
+        if isinstance(t, ast.Name):
+            return env.get(t.id)
+        if isinstance(t, ast.UnaryOp) and isinstance(t.op, ast.Not):
+            v = tv(t.operand)
+            return None if v is None else (not v)
+        if isinstance(t, ast.BoolOp):
+            vs = [tv(v) for v in t.values]
+            if isinstance(t.op, ast.And):
+                return False if any(v is False for v in vs) else (True if all(v is True for v in vs) else None)
+            return True if any(v is True for v in vs) else (False if all(v is False for v in vs) else None)
+        c = ncmp(t)
+        if c is not None:
+            op, lo, hi = c                       # lo < hi / lo <= hi
+            if isinstance(lo, ast.Name) and lo.id == nn and const(hi) in (1, 1.0):
+                return True                      # N < 1 (inside)
+            if isinstance(hi, ast.Name) and hi.id == nn and const(lo) in (1, 1.0):
+                return False                     # 1 <= N
+        return None
+    reached = []
+
+    def walk(stmts):
+        """True when every path through stmts returns"""
+        for st in stmts:
+            if isinstance(st, ast.Return):
+                reached.append(st)
+                return True
+            if isinstance(st, ast.Assign) and len(st.targets) == 1 and isinstance(st.targets[0], ast.Name):
+                v = tv(st.value) if isinstance(st.value, (ast.Compare, ast.BoolOp, ast.UnaryOp, ast.Constant, ast.Name)) else None
+                if v is None:
+                    env.pop(st.targets[0].id, None)
+                else:
+                    env[st.targets[0].id] = v
+            elif isinstance(st, ast.If):
+                v = tv(st.test)
+                if v is True:
+                    if walk(st.body):
+                        return True
+                elif v is False:
+                    if walk(st.orelse):
+                        return True
+                else:
+                    saved = dict(env)
+                    r1 = walk(st.body)
+                    env.clear()
+                    env.update(saved)
+                    r2 = walk(st.orelse)
+                    env.clear()
+                    env.update(saved)
+                    if r1 and r2:
+                        return True
+            elif isinstance(st, (ast.For, ast.While)):
+                walk(st.body)
+        return False
+    walk(f.node.body)
+    bad = [r for r in reached if not (isinstance(r.value, ast.Tuple) and len(r.value.elts) == 2 and const(r.value.elts[0]) in (0, 0.0) and u(r.value.elts[1]) == point)]
+    rep.check(bool(reached) and not bad, rule, f.key + "|interior points have distance 0", "%s:%d" % (f.module.relpath, (bad[0] if bad else f.node).lineno),
+              "for a point inside the ellipsoid (normalised norm < 1) and default arguments `%s` can be reached: points_in_ellipsoid says inside while point_to_ellipsoid "
+              "reports a positive distance" % (u(bad[0])[:80] if bad else "no return"), "(0.0, point) only")
